@@ -145,7 +145,7 @@ def get_atomic_sequence(xsd_type: Optional[XsdTypeProtocol],
             if namespaces is None:
                 namespaces = {}
             if ':' not in s:
-                return value.__class__(namespaces.get(''), s)
+                return value.__class__(namespaces.get('') or namespaces.get(None), s)
             else:
                 return value.__class__(namespaces[s.split(':')[0]], s)
 
